@@ -431,6 +431,35 @@ def run_model(name, lines, timeout=1200):
     return out
 
 
+def coq_eval(imports, expr, timeout=600):
+    """Evaluate a closed Gallina expression of type (nested) list of Z / bool / option inside Coq with
+    vm_compute and return it as a Python value -- used by thorough tiers to cross-check the EXTRACTED model
+    against in-assistant evaluation on a subsample (validates extraction + ocaml/prelude.ml + driver)."""
+    import ast as _ast
+    os.makedirs(os.path.join(BUILD, 'scratch'), exist_ok=True)
+    name = 'Eval%d' % os.getpid()
+    path = os.path.join(BUILD, 'scratch', name + '.v')
+    with open(path, 'w') as f:
+        f.write('From Coq Require Import ZArith List Bool.\nImport ListNotations.\n%s\nOpen Scope Z_scope.\n'
+                'Set Printing Width 1000000.\nSet Printing Depth 1000000.\n'
+                'Eval vm_compute in (%s).\n' % (imports, expr))
+    rc, out = sh(['coqc', '-Q', COQ, 'GV', '-w', '-notation-overridden,-deprecated', path], cwd=COQ,
+                 timeout=timeout)
+    for ext in ('.v', '.vo', '.vok', '.vos', '.glob'):
+        try:
+            os.remove(os.path.join(BUILD, 'scratch', name + ext))
+        except OSError:
+            pass
+    if rc:
+        raise RuntimeError('coq_eval failed: ' + out[-800:])
+    m = re.search(r'=\s*(.*?)\n\s*:\s', out, re.S)
+    if not m:
+        raise RuntimeError('coq_eval: no value in ' + out[-400:])
+    t = m.group(1).replace(';', ',').replace('%Z', '').replace('true', 'True').replace('false', 'False')
+    t = re.sub(r'Some\s+', '', t).replace('None', 'None')
+    return _ast.literal_eval(' '.join(t.split()))
+
+
 # ------------------------------------------------------------------------------------------------
 # known findings
 
